@@ -34,7 +34,7 @@ struct Syms {
         void *mh_isal_init[3], *mh_isal_update[3], *mh_isal_finalize[3];
         void **mh_disp_update[3], **mh_disp_finalize[3];
         // rolling
-        void *roll_init, *roll_reset, *roll_run, *roll_isal_init, *roll_isal_reset, *roll_isal_run, *roll_maskgen;
+        void *roll_init, *roll_reset, *roll_run, *roll_isal_init, *roll_isal_reset, *roll_isal_run, *roll_maskgen, *roll_leg_run, *roll_leg_maskgen;
         void *roll_impl[3];
         void **roll_disp;
         // gcm [keysize 0/1][family]
@@ -74,6 +74,8 @@ static void load_syms()
         S.roll_isal_reset = libsym("isal_rolling_hash2_reset");
         S.roll_isal_run = libsym("isal_rolling_hash2_run");
         S.roll_maskgen = libsym("isal_rolling_hashx_mask_gen");
+        S.roll_leg_run = libsym("rolling_hash2_run", false);
+        S.roll_leg_maskgen = libsym("rolling_hashx_mask_gen", false);
         for (int i = 0; i < 3; i++)
                 S.roll_impl[i] = libsym(strfmt("_rolling_hash2_run_until_%s", roll_impls[i]).c_str());
         S.roll_disp = (void **) libsym("_rolling_hash2_run_until_dispatched");
@@ -160,6 +162,13 @@ static void build_hwin()
                 }
         close(fd);
 }
+
+struct LegacyScope {
+        Env &e;
+        bool saved;
+        LegacyScope(Env &e_, bool on) : e(e_), saved(e_.legacy_api) { e.legacy_api = on; }
+        ~LegacyScope() { e.legacy_api = saved; }
+};
 
 struct SClient {
         int kind = 0, fam = 0, api = 0; // api 0 family symbols, 1 isal_
@@ -272,7 +281,7 @@ struct StreamSim : Sim {
                                 kind = g.chance(1, 2) ? K_MH1 : K_MH256;
                         std::string k = strfmt("c%d_", i);
                         p.cfg[k + "kind"] = kind;
-                        p.cfg[k + "api"] = g.chance(1, 3) ? 1 : 0;
+                        p.cfg[k + "api"] = (int64_t) (g.chance(1, 2) ? 0 : g.chance(2, 3) ? 1 : 2); // family symbols / isal_ API / deprecated API
                         p.cfg[k + "len"] = (int64_t) stream_len(g, kind, thorough);
                         p.cfg[k + "place"] = (int64_t) g.below(3);
                         if (kind <= K_MUR)
@@ -375,6 +384,7 @@ struct StreamSim : Sim {
         void mh_init(St &s, SClient &c, int ci)
         {
                 Env &e = *s.env;
+                LegacyScope legacy_scope(e, c.api == 2);
                 int k = c.kind; // 0,1,2 index into S.mh_*
                 if (c.kind == K_MUR) {
                         if (c.api)
@@ -415,6 +425,7 @@ struct StreamSim : Sim {
         void mh_deliver(St &s, SClient &c, int ci, const Op &o)
         {
                 Env &e = *s.env;
+                LegacyScope legacy_scope(e, c.api == 2);
                 int k = c.kind;
                 size_t n = mh_frag_len(c, o);
                 size_t carry = c.pos % 1024;
@@ -449,6 +460,7 @@ struct StreamSim : Sim {
         void mh_finalize(St &s, SClient &c, int ci)
         {
                 Env &e = *s.env;
+                LegacyScope legacy_scope(e, c.api == 2);
                 int k = c.kind;
                 bool sha256 = c.kind == K_MH256;
                 size_t dl = sha256 ? 32 : 20;
@@ -506,6 +518,7 @@ struct StreamSim : Sim {
         void roll_setup(St &s, SClient &c, int ci)
         {
                 Env &e = *s.env;
+                LegacyScope legacy_scope(e, c.api == 2);
                 uint64_t rc;
                 if (c.api) {
                         rc = e.call("isal_rolling_hash2_init", S.roll_isal_init, { U(c.ctx), c.w });
@@ -578,7 +591,9 @@ struct StreamSim : Sim {
                 if (!g_force_family_api)
                         sg.set(S.roll_disp, S.roll_impl[c.fam]);
                 int m;
-                if (c.api) {
+                if (c.api == 2 && S.roll_leg_run) {
+                        m = (int) (uint32_t) e.call("rolling_hash2_run", S.roll_leg_run, { U(c.ctx), U(src), n, c.mask, c.trigger, U(off) });
+                } else if (c.api) {
                         uint64_t rc = e.call("isal_rolling_hash2_run", S.roll_isal_run, { U(c.ctx), U(src), n, c.mask, c.trigger, U(off), U(match) });
                         if ((uint32_t) rc)
                                 e.violation("C09", "run-failed", "C09/run-failed", strfmt("isal_rolling_hash2_run returned %d", (int) rc));
@@ -646,6 +661,7 @@ struct StreamSim : Sim {
         void gcm_make_key(St &s, SClient &c, int ci)
         {
                 Env &e = *s.env;
+                LegacyScope legacy_scope(e, c.api == 2);
                 if (c.share_with >= 0) {
                         SClient &o = s.cl[c.share_with];
                         c.key_data = o.key_data;
@@ -738,6 +754,7 @@ struct StreamSim : Sim {
         void gcm_init(St &s, SClient &c, int ci)
         {
                 Env &e = *s.env;
+                LegacyScope legacy_scope(e, c.api == 2);
                 int bits = c.ks ? 256 : 128;
                 Rng g(mix64(s.p->seed, 0x1700000000ULL + (uint64_t) ci * 64 + (uint64_t) c.epoch), "iv");
                 c.iv = e.mem.alloc(12, 1, (Place) ((ci + c.epoch) % 2), nullptr, "gcm iv", R_INPUT);
@@ -768,6 +785,7 @@ struct StreamSim : Sim {
         void gcm_deliver(St &s, SClient &c, int ci, const Op &o)
         {
                 Env &e = *s.env;
+                LegacyScope legacy_scope(e, c.api == 2);
                 int bits = c.ks ? 256 : 128;
                 size_t rem = c.in_stream.size() - c.pos;
                 size_t n;
@@ -855,6 +873,7 @@ struct StreamSim : Sim {
         void gcm_finalize(St &s, SClient &c, int ci)
         {
                 Env &e = *s.env;
+                LegacyScope legacy_scope(e, c.api == 2);
                 int bits = c.ks ? 256 : 128;
                 uint8_t *tag = e.mem.alloc(c.tag_len, 1, (Place) (ci % 2), &e.hidden, "gcm tag out", R_OUTPUT);
                 gcm_secrets(s, c);
@@ -995,7 +1014,12 @@ struct StreamSim : Sim {
                                 if (p.get((k + "maskgen_mean").c_str())) {
                                         uint32_t mean = (uint32_t) p.get((k + "maskgen_mean").c_str()), shift = (uint32_t) p.get((k + "maskgen_shift").c_str());
                                         uint32_t *mo = (uint32_t *) e.mem.alloc(4, 4, END_FLUSH, &e.hidden, "mask out", R_OUTPUT);
-                                        uint64_t rc = e.call("isal_rolling_hashx_mask_gen", S.roll_maskgen, { mean, shift, U(mo) });
+                                        uint64_t rc;
+                                        if (c.api == 2 && S.roll_leg_maskgen) {
+                                                *mo = (uint32_t) e.call("rolling_hashx_mask_gen", S.roll_leg_maskgen, { mean, shift });
+                                                rc = 0;
+                                        } else
+                                                rc = e.call("isal_rolling_hashx_mask_gen", S.roll_maskgen, { mean, shift, U(mo) });
                                         e.obs(0x540 + i, *mo);
                                         uint32_t want = ref_mask_gen(mean, shift);
                                         if ((uint32_t) rc || *mo != want)
@@ -1119,6 +1143,7 @@ struct StreamSim : Sim {
         void roll_setup_huge(St &s, SClient &c, int ci)
         {
                 Env &e = *s.env;
+                LegacyScope legacy_scope(e, c.api == 2);
                 size_t phase = (size_t) s.p->get(strfmt("c%d_phase", ci).c_str());
                 if (c.api)
                         e.call("isal_rolling_hash2_init", S.roll_isal_init, { U(c.ctx), c.w });
